@@ -46,7 +46,9 @@ fn main() {
         "mkfixtures" => {
             let out = args.get(2).cloned().unwrap_or_else(|| usage());
             let commit = args.get(3).cloned().unwrap_or_else(|| "unknown".into());
-            match props::compat::mkfixtures(std::path::Path::new(&out), &commit) {
+            let only = args.get(4).cloned();
+            let start: usize = args.get(5).and_then(|s| s.parse().ok()).unwrap_or(0);
+            match props::compat::mkfixtures(std::path::Path::new(&out), &commit, only.as_deref(), start) {
                 Ok(()) => 0,
                 Err(e) => {
                     eprintln!("mkfixtures: {e:#}");
